@@ -106,7 +106,13 @@ func (s *Spec) Eval() (map[string]*TState, error) {
 			}
 		}
 		sort.Strings(st.DirectDeps)
-		written := append([]string{}, t.Deps...)
+		// how the dependency list is written, including what each entry resolves to: the same set
+		// of dependency targets reached with other multiplicities (an alias retargeted to a
+		// target that is also a direct dependency) is a rewritten list, not a new state
+		written := []string{}
+		for _, d := range t.Deps {
+			written = append(written, d+"="+s.Resolve(d))
+		}
 		sort.Strings(written)
 		st.Written = H(written...)
 		st.DEP = DepDigest(st.Views)
